@@ -25,20 +25,22 @@ type bufOp struct {
 }
 
 type bufRun struct {
-	h        *hctx
-	b        *Buffer
-	cons     []Consumer
-	mu       sync.Mutex
-	ops      []*bufOp
-	pendGet  map[int]*bufOp // consumer -> pending Get
-	getStop  map[int]context.CancelFunc
-	pendClC  map[int]*bufOp
-	pendClB  *bufOp
-	nextVal  int
-	delta    []int // harness-side belief of uncommitted reads (heuristic for generation only)
-	closedC  []bool
-	closedB  bool
-	settleMs int
+	h         *hctx
+	b         *Buffer
+	cons      []Consumer
+	mu        sync.Mutex
+	ops       []*bufOp
+	pendGet   map[int]*bufOp // consumer -> pending Get
+	getStop   map[int]context.CancelFunc
+	pendClC   map[int]*bufOp
+	pendOther map[int]int // operations issued on a consumer while one of its Gets is parked (they wait for its mutex)
+	pendOps   map[int][]*bufOp
+	pendClB   *bufOp
+	nextVal   int
+	delta     []int // harness-side belief of uncommitted reads (heuristic for generation only)
+	closedC   []bool
+	closedB   bool
+	settleMs  int
 }
 
 func boolInt(b bool) int {
@@ -80,6 +82,7 @@ func newBufRun(h *hctx, kind, mx, tg int, cooldown time.Duration) *bufRun {
 		}
 	}
 	return &bufRun{h: h, b: b, pendGet: map[int]*bufOp{}, getStop: map[int]context.CancelFunc{}, pendClC: map[int]*bufOp{},
+		pendOther: map[int]int{}, pendOps: map[int][]*bufOp{},
 		nextVal: 1}
 }
 
@@ -239,6 +242,7 @@ func (r *bufRun) sweepPending() {
 	for c, o := range r.pendGet {
 		if o.returned() {
 			delete(r.pendGet, c)
+			delete(r.pendOther, c)
 			r.getStop[c]()
 			delete(r.getStop, c)
 			if o.out[0] == 0 {
@@ -348,6 +352,21 @@ func bufK1Case(h *hctx, id int) {
 	if f := h.pi("cleaner", -1); f >= 0 {
 		kind = f
 	}
+	if h.pi("cleanermix", 0) == 1 {
+		// retention-focused mix: mostly forced trims, including targets below zero and above max (over- and under-asking)
+		switch k := rng.Intn(20); {
+		case k < 12:
+			kind = 1
+			mx = 1 + rng.Intn(6)
+			tg = rng.Intn(mx+4) - 2
+		case k < 16:
+			kind = 2
+		case k < 17:
+			kind = 3
+		default:
+			kind = 0
+		}
+	}
 	r := newBufRun(h, kind, mx, tg, 0)
 	nops := 8 + rng.Intn(28)
 	for k := 0; k < nops; k++ {
@@ -355,7 +374,18 @@ func bufK1Case(h *hctx, id int) {
 		nc := len(r.cons)
 		x := rng.Intn(100)
 		pick := func() int { return rng.Intn(nc) }
-		free := func(c int) bool { return r.pendGet[c] == nil && r.pendClC[c] == nil }
+		free := func(c int) bool {
+			// no call on this consumer is still in flight (composite operations such as Range must not interleave with
+			// a Commit/Rollback that has been waiting for the consumer's mutex)
+			keep := r.pendOps[c][:0]
+			for _, o := range r.pendOps[c] {
+				if !o.returned() {
+					keep = append(keep, o)
+				}
+			}
+			r.pendOps[c] = keep
+			return r.pendGet[c] == nil && r.pendClC[c] == nil && len(keep) == 0
+		}
 		switch {
 		case x < 20:
 			r.put(rng.Intn(4), false)
@@ -382,19 +412,33 @@ func bufK1Case(h *hctx, id int) {
 			}
 		case x < 70:
 			c := pick()
-			if r.pendGet[c] == nil {
+			if r.pendGet[c] == nil || (r.pendOther[c] < 2 && rng.Intn(2) == 0) {
+				if r.pendGet[c] != nil {
+					r.pendOther[c]++
+					h.count("op_on_consumer_with_parked_get", 1)
+				}
 				o := r.exec([]int{5, c}, func() []int { return errOut(r.cons[c].Commit()) })
 				if o.returned() && o.out[0] == 3 {
 					r.delta[c] = 0
+				}
+				if !o.returned() {
+					r.pendOps[c] = append(r.pendOps[c], o)
 				}
 				h.count("op_commit", 1)
 			}
 		case x < 78:
 			c := pick()
-			if r.pendGet[c] == nil {
+			if r.pendGet[c] == nil || (r.pendOther[c] < 2 && rng.Intn(2) == 0) {
+				if r.pendGet[c] != nil {
+					r.pendOther[c]++
+					h.count("op_on_consumer_with_parked_get", 1)
+				}
 				o := r.exec([]int{6, c}, func() []int { return errOut(r.cons[c].Rollback()) })
 				if o.returned() && o.out[0] == 3 {
 					r.delta[c] = 0
+				}
+				if !o.returned() {
+					r.pendOps[c] = append(r.pendOps[c], o)
 				}
 				h.count("op_rollback", 1)
 			}
